@@ -3,7 +3,7 @@
    re-proved on it by the generated file (vm_compute, exhaustive over all 176 entries). *)
 From Avo Require Import Base.Prelude Base.Str.
 From stdpp Require Import gmap.
-From Avo Require Import Base.MaskSet Model.IR Model.RegFile Model.RegSpec Proofs.RegProofs.
+From Avo Require Import Base.MaskSet Model.IR Model.RegFile Model.RegSpec Model.Collection Proofs.RegProofs Proofs.CollectionProofs.
 Open Scope N_scope.
 
 (* every entry: its name denotes (in the Go assembler's naming) the hardware register of its kind
@@ -35,3 +35,21 @@ Theorem as_preserves_id_or_fails : forall rf r m, regfile_ok rf = true ->
   end.
 Proof. exact reg_as_spec_lemma. Qed.
 Print Assumptions as_preserves_id_or_fails.
+
+(* virtual registers: the registers drawn from one collection (one counter per kind, reg/collection.go)
+   are pairwise different registers, for every sequence of requests in which no kind is requested
+   more than 65536 times (the counter is a uint16), are virtual, and have the requested kinds *)
+Theorem drawn_registers_never_share_identity : forall ks, (forall k, In k ks -> k < 256) ->
+  (forall k, count_kind ks k <= 65536) ->
+  List.NoDup (fst (draws [] ks)) /\ List.map id_kind (fst (draws [] ks)) = ks
+  /\ List.Forall (fun id => id_is_virtual id = true) (fst (draws [] ks)).
+Proof.
+  intros ks Hk Hc. split; [apply draws_nodup; [exact Hk|intro k; cbn [c_get]; apply Hc]|apply draws_kinds; exact Hk].
+Qed.
+Print Assumptions drawn_registers_never_share_identity.
+
+(* beyond the bound the statement is false of the code (KNOWN_FINDINGS: C20-collection-index-wrap) *)
+Example collection_index_wraps_refuted :
+  let '(ids, _) := draws [(1, 65535)] [1; 1] in List.nth 1 ids 0 = fst (draw [] 1).
+Proof. exact index_wraps_refuted. Qed.
+Print Assumptions collection_index_wraps_refuted.
